@@ -292,6 +292,13 @@ pub fn make_case(prop: &str, seed: u64, tier: Tier) -> Case {
         if prop == "C15" {
             h.steps = (4, 14);
         }
+        if prop == "C13" && r.pct(40) {
+            // all entry orders inside one revision (free of the recorded finding's trigger)
+            h.w_set = 0;
+            h.w_synth = 0;
+            h.w_trigcancel = 0;
+            class = "fallback_single_revision".into();
+        }
         let mut hist = gen_history(&mut r, &prog, &h);
         if let Some((i, f, _)) = prog.bad_guard {
             // make sure the guard is toggled: bad mode on early, off later
